@@ -22,6 +22,7 @@ XSL = 'xmlns:xsl="http://www.w3.org/1999/XSL/Transform"'
 NSDECL = 'xmlns:p="urn:c15" xmlns:q="urn:c15"'
 CORPUS = os.path.join(core.VERIF, "corpus", "C15")
 DISTINCT = set()
+PREFIX = {}      # job id -> the jobs run before it (and itself) in the same process, for jobs sharing a transformer
 
 
 # ---------------------------------------------------------------------------------------------
@@ -528,6 +529,10 @@ def run_jobs(jobs, exe, chunk=30):
             return ("ok", bytes.fromhex(f[1]) if len(f) > 1 else b"")
         return ("err", int(f[1]), bytes.fromhex(f[2]).decode("utf-8", "replace") if len(f) > 2 else "")
     res, seqs = {}, []
+    for ch in chunks:
+        for k, j in enumerate(ch):
+            if "reuse" in j.get("opts", ""):
+                PREFIX[j["id"]] = ch[:k + 1]
     with ThreadPoolExecutor(core.NPROC) as ex:
         outs = list(ex.map(run_chunk, chunks))
         lost, firsts = [], []
@@ -548,8 +553,12 @@ def run_jobs(jobs, exe, chunk=30):
 
 
 def replay_text(c, job, what):
-    return json.dumps({"what": what, "case": c["id"], "class": c["cls"], "sheet": job["sheet"], "source": job["source"],
-                       "files": job.get("files", {}), "opts": job.get("opts", "")}, indent=1)
+    d = {"what": what, "case": c["id"], "class": c["cls"], "sheet": job["sheet"], "source": job["source"],
+         "files": job.get("files", {}), "opts": job.get("opts", "")}
+    if job["id"] in PREFIX and len(PREFIX[job["id"]]) > 1:
+        d["what"] += " (transformer shared with the %d transformations before it: replayed as a sequence)" % (len(PREFIX[job["id"]]) - 1)
+        d["sequence"] = PREFIX[job["id"]]
+    return json.dumps(d, indent=1)
 
 
 def evaluate(ctx, cases, exe, model):
@@ -717,6 +726,7 @@ def evaluate(ctx, cases, exe, model):
             for dsc, (tk, _) in allmap.items():
                 tok2desc[(dsc.split(":")[0], tk)] = dsc
             if "E" in rs or "F" in rs:
+                ctx.count("model:unknown-key-error-predicted")
                 if r2[0] == "ok" or "no xsl:key" not in (r2[2] if len(r2) > 2 else ""):
                     corr.append({"case": lid, "what": "model predicts an unknown-key error (%s), library gave %r" % (got, r2[:2]),
                                  "replay": replay_text(c, job, "model predicts unknown-key error")})
@@ -810,7 +820,7 @@ def run(ctx):
     known = {k["key"]: k for k in ctx.known.for_property("C15")}
     run_corpus(ctx, exe, known)
 
-    n = 300 if not ctx.thorough else 4000
+    n = 1200 if not ctx.thorough else 20000
     cases = make_cases(ctx, n, "g")
     corr, orc = evaluate(ctx, cases, exe, model)
     ctx.cov["samples"] = ["%s: %s | probes %s" % (c["cls"], "; ".join("%s match=%s use=%s" % (d["name"][0], d["match"], d["use"]) for d in c["decls"]),
@@ -853,12 +863,16 @@ def replay(ctx, path):
     i = 0 if txt.startswith("{") else txt.index("\n{") + 1
     e, _ = json.JSONDecoder().raw_decode(txt[i:])
     if "sequence" in e:
-        rc, res, raw = core.run_lines(exe, "\n".join(xsltrun.line_of(j) for j in e["sequence"]) + "\n", sep="|")
-        lost = [j["id"] for j in e["sequence"] if j["id"] not in res]
+        rc, raw, _ = core.run_lines(exe, "\n".join(xsltrun.line_of(j) for j in e["sequence"]) + "\n", sep="|")
+        lost = [j["id"] for j in e["sequence"] if j["id"] not in raw]
         print("driver exit status %s; transformations without a result: %s" % (rc, lost))
-        return 1 if lost else 0
-    res = xsltrun.run([{"id": "replay", "sheet": e["sheet"], "source": e["source"], "files": e.get("files", {}), "opts": e.get("opts", "")}], exe=exe)
-    r = res["replay"]
+        if lost or "sheet" not in e:
+            return 1 if lost else 0
+        f = raw[e["sequence"][-1]["id"]].split("|")
+        r = ("ok", bytes.fromhex(f[1]) if len(f) > 1 else b"") if f[0] == "ok" else ("err", f[1], bytes.fromhex(f[2]).decode("utf-8", "replace") if len(f) > 2 else "")
+    else:
+        res = xsltrun.run([{"id": "replay", "sheet": e["sheet"], "source": e["source"], "files": e.get("files", {}), "opts": e.get("opts", "")}], exe=exe)
+        r = res["replay"]
     print(e.get("what", ""))
     if r[0] != "ok":
         print(r)
